@@ -34,6 +34,11 @@ def compile_clause(src):
 
 
 def ev(src, env):
+    from pyvc.contracts import MACROS
+    for name, (params, msrc) in MACROS.items():
+        if name not in env:
+            code = compile_clause(msrc)
+            env[name] = (lambda code, params: (lambda *a: eval(code, {**env, **dict(zip(params, a))})))(code, params)
     return eval(compile_clause(src), env)
 
 
